@@ -210,7 +210,11 @@ def gen(rng, tier, i):
                    op("recv_eof", timeout_ms=3000, label="rest", on_fail="continue")]
             proto = "socks5"
         else:
-            hs, proto = sc.client_handshake(li, r["host"], r["port"], early=marker, variant="5p" if r["listener"] == "l-socks" else None, udp=r["udp"])
+            early = marker
+            if r["udp"]:
+                # UDP over HTTP carries frames: the eager payload must be a well-formed frame holding the marker
+                early = rc.rpfm_frame(0, r["host"], r["port"], marker)
+            hs, proto = sc.client_handshake(li, r["host"], r["port"], early=early, variant="5p" if r["listener"] == "l-socks" else None, udp=r["udp"])
             for o in hs:
                 o["on_fail"] = "continue"
             ops = hs + [op("recv_eof", timeout_ms=3000, label="rest", on_fail="continue")]
